@@ -215,16 +215,47 @@ func b01(b bool) string {
 
 // String renders the canonical text the Lean model must reproduce. Parameters other than the
 // pos ones the model tracks are not part of it (they are compared by the C17 monitor).
+// Foreign: balances and supply in denominations other than the staking one, canonical text
+func (s *Snapshot) Foreign() string {
+	var p []string
+	for _, a := range sortedKeys(s.Bal) {
+		for d, x := range s.Bal[a] {
+			if d != Denom {
+				p = append(p, a+"="+x.String()+d)
+			}
+		}
+	}
+	for d, x := range s.Supply {
+		if d != Denom {
+			p = append(p, "supply="+x.String()+d)
+		}
+	}
+	sort.Strings(p)
+	return strings.Join(p, ",")
+}
+
 func (s *Snapshot) String() string {
 	var sb strings.Builder
+	// the line protocol carries the staking denomination (the one the model tracks); coins of other denominations
+	// only ever move as part of a fee and are watched by the monitors (and compared between instances, see Foreign)
 	sb.WriteString("bal[")
-	for i, a := range sortedKeys(s.Bal) {
-		if i > 0 {
+	first := true
+	for _, a := range sortedKeys(s.Bal) {
+		x, ok := s.Bal[a][Denom]
+		if !ok {
+			continue
+		}
+		if !first {
 			sb.WriteByte(',')
 		}
-		sb.WriteString(a + "=" + coinsStr(s.Bal[a]))
+		first = false
+		sb.WriteString(a + "=" + x.String() + Denom)
 	}
-	sb.WriteString("] sup[" + coinsStr(s.Supply) + "] val[")
+	sup := ""
+	if x, ok := s.Supply[Denom]; ok {
+		sup = x.String() + Denom
+	}
+	sb.WriteString("] sup[" + sup + "] val[")
 	for i, a := range sortedKeys(s.Vals) {
 		v := s.Vals[a]
 		if i > 0 {
@@ -267,7 +298,7 @@ func (s *Snapshot) String() string {
 		fmt.Fprintf(&sb, "%s=%d:%d:%d:%d:%s", a, x.Start, x.Offset, x.Missed, x.JailedUntil, b01(x.Tomb))
 	}
 	sb.WriteString("] mb[")
-	first := true
+	first = true
 	for _, a := range sortedKeys(s.Missed) {
 		var idx []int64
 		for i := range s.Missed[a] {
